@@ -71,6 +71,10 @@ pub enum BOp {
     TruncB(u8),
     Clear(u8),
     Insert0(u8),
+    /// `insert_str(len / 2, "0123456789")` (the middle of the texts is ASCII)
+    InsertStrMid(u8),
+    /// `extend(["b", "cd"])`
+    ExtendStrs(u8),
     Remove0(u8),
     Reserve1(u8),
     ReserveHalf(u8),
@@ -106,7 +110,7 @@ fn static_text(d: i8) -> &'static str {
 
 fn slot_ops(i: u8) -> Vec<BOp> {
     use BOp::*;
-    vec![Push(i), PushWide(i), PushStr(i), Pop(i), TruncSmall(i), TruncLast(i), TruncB(i), Clear(i), Insert0(i), Remove0(i), Reserve1(i), ReserveHalf(i), TryReserveMax(i), TryReserveLimit(i), ShrinkFit(i), ShrinkToB1(i), Drop(i)]
+    vec![Push(i), PushWide(i), PushStr(i), Pop(i), TruncSmall(i), TruncLast(i), TruncB(i), Clear(i), Insert0(i), InsertStrMid(i), ExtendStrs(i), Remove0(i), Reserve1(i), ReserveHalf(i), TryReserveMax(i), TryReserveLimit(i), ShrinkFit(i), ShrinkToB1(i), Drop(i)]
 }
 
 /// every sequence of at most `depth` applicable operations (applicability depends only on which
@@ -220,6 +224,8 @@ fn apply(st: &mut St, op: BOp, out: &mut Vec<(&'static str, String)>) {
         TruncB(i) => both!(i, s, m, s.truncate(B), m.truncate(B)),
         Clear(i) => both!(i, s, m, s.clear(), m.clear()),
         Insert0(i) => both!(i, s, m, s.insert(0, 'y'), m.insert(0, 'y')),
+        InsertStrMid(i) => both!(i, s, m, { let at = if s.len() >= 16 { s.len() / 2 } else { 0 }; s.insert_str(at, "0123456789") }, { let at = if m.len() >= 16 { m.len() / 2 } else { 0 }; m.insert_str(at, "0123456789") }),
+        ExtendStrs(i) => both!(i, s, m, s.extend(["b", "cd"]), m.extend(["b", "cd"])),
         Remove0(i) => both!(i, s, m, if s.is_empty() { None } else { Some(s.remove(0)) }, if m.is_empty() { None } else { Some(m.remove(0)) }),
         Reserve1(i) | ReserveHalf(i) => {
             let n = if matches!(op, Reserve1(_)) { 1 } else { B / 2 };
